@@ -331,6 +331,21 @@ def reduction_extra(run, sym_u, name, ops, seed, idx):
         ref = np.asarray(sym_u.find_uniq_hkls(hk.astype(float), grp))[:, 3]
         if b.shape != arr.shape or (arr.size and not np.array_equal(np.asarray(b, float).ravel(), ref)):
             V("find_uniq_hkls:shape:%s:%s" % (tag, name), "find_uniq_hkls on shape %s differs from the same hkl inside a list" % tag)
+    # lists of two, three and four reflections in the documented (3,n) layout: a (3,3) array is three hkls in columns
+    full = np.asarray(sym_u.find_uniq_hkls(hk.astype(float), grp))
+    for ncol in (2, 3, 4):
+        sel = r.choice(hk.shape[1], ncol, replace=False)
+        for tag, arr in (("float", hk[:, sel].astype(float)), ("int", np.ascontiguousarray(hk[:, sel]))):
+            try:
+                b = np.asarray(sym_u.find_uniq_hkls(arr, grp), float)
+            except Exception as e:
+                V("find_uniq_hkls:shape:(3,%d):%s" % (ncol, name), "find_uniq_hkls on a (3,%d) array raised %s: %s"
+                  % (ncol, type(e).__name__, e))
+                continue
+            run.count("hkl_short_lists_checked")
+            if b.shape != (3, ncol) or not np.array_equal(b, full[:, sel]):
+                V("find_uniq_hkls:short-list:(3,%d):%s" % (ncol, name), "find_uniq_hkls on a (3,%d) %s array gives %r; inside a "
+                  "list of %d the same reflections gave %r" % (ncol, tag, b.tolist(), hk.shape[1], full[:, sel].tolist()))
     # custom ranking function (one-to-one on |h| < 1000)
     f2 = lambda h: (h[2] * 2000.0 + h[1]) * 2000.0 + h[0]
     bf = sym_u.find_uniq_hkls(hk.astype(float), grp, func=f2)
